@@ -34,6 +34,14 @@
 (* registry; all workers share the token key) owns the sessions opened on  *)
 (* it: sinfo[s].home.  The token of s becomes known to clients when the    *)
 (* opening request's response is written (sinfo[s].pub).                   *)
+(*                                                                         *)
+(* Configurations: MC*.cfg model-check the properties at the end of this   *)
+(* module (Mode "mc").  GenE/GenS3.cfg emit one witness schedule per        *)
+(* transition class (Mode "classes", Det = TRUE: only interleavings a      *)
+(* gated replay realises deterministically; Probe = TRUE: Lock() attempts  *)
+(* on a held session are steps of their own).  GenSeq.cfg emits sequential *)
+(* histories (Serial = TRUE), replayable without hook points.  Trace.cfg   *)
+(* (Mode "trace") drives the same actions from a recorded execution.       *)
 (***************************************************************************)
 EXTENDS Naturals, Sequences, FiniteSets, TLC, VerifEmit
 
